@@ -1,5 +1,8 @@
-(** C01 — concrete witnesses: raven's current code violates the statement in
-    three classes (and refuses acceptable recipients after a UID COPY). *)
+(** C01 — concrete witnesses.  One class is reproducible on raven's current
+    code (missing boundary); the result-map defect is still in the code but
+    needs a store whose UIDNEXT lags behind, which no operation produces any
+    more (raven 02d2f67, 30e4be8): it is witnessed on such a world, not on a
+    history.  The repaired behaviours are kept as regression examples. *)
 From Coq Require Import String Ascii List Bool ZArith Lia.
 From Raven Require Import Base.GoStr Model.Store Model.Ops Model.Deliver Spec.DeliverSpec.
 Import ListNotations.
@@ -12,18 +15,6 @@ Definition clk0 : nat -> Z := fun _ => 100.
 Definition p_plain : parsed := mkParsed true false 3 Single.
 Definition p_noparse : parsed := mkParsed false false 2 Single.
 Definition p_nob : parsed := mkParsed true false 5 MultiNoBoundary.
-
-(** deliver one message to u; the user copies it inside INBOX (UID COPY 1 INBOX:
-    UID 2 is taken, uid_next stays 2) *)
-Definition h_stale : list wop :=
-  [WLmtp INBOX [U1] p_plain clk0; WImap KU1 100 (OUidCopy 1 [UOne 1] INBOX)].
-
-Lemma refuted_single_554 :
-  exists w folder rs p clk, classify w folder rs p clk = Some CSingle554 /\ ~ spec_C01 w folder rs p clk.
-Proof.
-  exists (w0 []), INBOX, [U1; U2], p_noparse, clk0. split; [reflexivity|].
-  unfold spec_C01. simpl. intros (H & _). discriminate.
-Qed.
 
 Lemma refuted_noboundary :
   exists w folder rs p clk, classify w folder rs p clk = Some CNoBoundary /\ ~ spec_C01 w folder rs p clk.
@@ -39,14 +30,35 @@ Proof.
   vm_compute in Hr. discriminate.
 Qed.
 
-Lemma refuted_dup_last_result :
-  exists h folder rs p clk,
-    classify (wrun h (w0 [])) folder rs p clk = Some CDupLastResult /\
-    ~ spec_C01 (wrun h (w0 [])) folder rs p clk.
+(** ---- the result map, on a world whose INBOX has UIDNEXT behind ----------------- *)
+
+Definition force_link (s : store) (uid : Z) : store :=
+  match insert_link s 1 1 uid [] with Some s' => s' | None => s end.
+
+(** INBOX holds UIDs 1 and 2, uid_next = 2 (what "deliver; UID COPY 1 INBOX"
+    left behind before raven 02d2f67) *)
+Definition s_lag : store := force_link (fst (op_deliver (init 100) INBOX 100)) 2.
+(** INBOX holds UIDs 1 and 3, uid_next = 2 *)
+Definition s_gap : store := force_link (fst (op_deliver (init 100) INBOX 100)) 3.
+Definition w_lag : world := mkW [] [(KU1, mkU s_lag [])].
+Definition w_gap : world := mkW [] [(KU1, mkU s_gap [])].
+
+Lemma WInv_one k s : WInv (mkW [] [(k, mkU s [])]).
 Proof.
-  exists h_stale, INBOX, [U1; U1], p_plain, clk0. split; [vm_compute; reflexivity|].
+  intros k' u G. unfold get in G. simpl in G. destruct (key_eqb k k'); [|discriminate].
+  injection G as <-. intros r [].
+Qed.
+
+Lemma refuted_dup_last_result :
+  exists w folder rs p clk, WInv w /\
+    classify w folder rs p clk = Some CDupLastResult /\
+    snd (fst (lmtp_data w folder rs p clk)) = [R250; R250] /\
+    ~ spec_C01 w folder rs p clk.
+Proof.
+  exists w_lag, INBOX, [U1; U1], p_plain, clk0. split; [apply WInv_one|].
+  split; [vm_compute; reflexivity|]. split; [vm_compute; reflexivity|].
   unfold spec_C01.
-  remember (lmtp_data (wrun h_stale (w0 [])) INBOX [U1; U1] p_plain clk0) as res eqn:E.
+  remember (lmtp_data w_lag INBOX [U1; U1] p_plain clk0) as res eqn:E.
   vm_compute in E. subst res.
   intros (_ & _ & _ & H). inversion H as [|c a rc ra Hp _]; subst. clear H.
   unfold position_ok in Hp. simpl in Hp.
@@ -55,38 +67,31 @@ Proof.
   unfold links_of in Hl. vm_compute in Hl. discriminate.
 Qed.
 
-(** deliver; UID COPY 1 INBOX twice; expunge UID 2: uid_next = 2 is free, 3 is
-    taken.  <u>,<u>: the first attempt stores UID 2, the second fails; both
-    positions are answered 550 although one message was added *)
-Definition h_gap : list wop :=
-  [WLmtp INBOX [U1] p_plain clk0; WImap KU1 100 (OUidCopy 1 [UOne 1] INBOX);
-   WImap KU1 100 (OUidCopy 1 [UOne 1] INBOX);
-   WImap KU1 100 (OUidStore 1 [UOne 2] SAdd [S_ "\Deleted"]); WImap KU1 100 (OExpunge 1)].
-
 Lemma refuted_dup_rejected_but_stored :
-  exists h folder rs p clk,
-    classify (wrun h (w0 [])) folder rs p clk = Some CDupLastResult /\
-    snd (fst (lmtp_data (wrun h (w0 [])) folder rs p clk)) = [R550; R550] /\
-    ~ spec_C01 (wrun h (w0 [])) folder rs p clk.
+  exists w folder rs p clk, WInv w /\
+    classify w folder rs p clk = Some CDupLastResult /\
+    snd (fst (lmtp_data w folder rs p clk)) = [R550; R550] /\
+    ~ spec_C01 w folder rs p clk.
 Proof.
-  exists h_gap, INBOX, [U1; U1], p_plain, clk0. split; [vm_compute; reflexivity|].
-  split; [vm_compute; reflexivity|].
+  exists w_gap, INBOX, [U1; U1], p_plain, clk0. split; [apply WInv_one|].
+  split; [vm_compute; reflexivity|]. split; [vm_compute; reflexivity|].
   unfold spec_C01.
-  remember (lmtp_data (wrun h_gap (w0 [])) INBOX [U1; U1] p_plain clk0) as res eqn:E.
+  remember (lmtp_data w_gap INBOX [U1; U1] p_plain clk0) as res eqn:E.
   vm_compute in E. subst res.
   intros (_ & _ & _ & H). inversion H as [|c a rc ra Hp _]; subst. clear H.
   unfold position_ok in Hp. simpl in Hp. specialize (Hp KU1).
   unfold links_of in Hp. vm_compute in Hp. discriminate.
 Qed.
 
-(** the same history, one acceptable recipient: refused with 550 *)
-Lemma refuted_stale_uidnext_refusal :
-  exists h folder rs p clk,
-    p_ok p = true /\ forallb (fun r => deliverable (wrun h (w0 [])) folder r p) rs = true /\
-    snd (fst (lmtp_data (wrun h (w0 [])) folder rs p clk)) = [R550].
-Proof.
-  exists h_stale, INBOX, [U1], p_plain, clk0. split; [reflexivity|]. split; vm_compute; reflexivity.
-Qed.
+(** ---- regression scenarios: the histories that used to fail ------------------- *)
+
+(** deliver one message to u; the user copies it inside INBOX *)
+Definition h_stale : list wop :=
+  [WLmtp INBOX [U1] p_plain clk0; WImap KU1 100 (OUidCopy 1 [UOne 1] INBOX)].
+Definition h_gap : list wop :=
+  [WLmtp INBOX [U1] p_plain clk0; WImap KU1 100 (OUidCopy 1 [UOne 1] INBOX);
+   WImap KU1 100 (OUidCopy 1 [UOne 1] INBOX);
+   WImap KU1 100 (OUidStore 1 [UOne 2] SAdd [S_ "\Deleted"]); WImap KU1 100 (OExpunge 1)].
 
 (** non-vacuity: a transaction outside every class, after a history with
     deliveries, an APPEND, a UID COPY into another mailbox, EXPUNGE, a rename of
